@@ -262,7 +262,31 @@ def check_file(h, opts, rep, steps_done=None, pfx="C10", full=True):
             for (nm, profile, axis, got_m, got_s, key, what) in (
                     ("position", pr, q, pos[rec, b], blen[rec, b], ":position_length", "stored bunch position/length are not the moments of the stored profile (over the true position axis)"),
                     ("energy", ep, p, eav[rec, b], esp[rec, b], ":energy_moments", "stored mean energy/spread are not the moments of the stored energy profile (over the true energy axis)")):
-                m, sd = moments(profile, axis, delta, want_pop)
+                # each profile is normalised by its own (Simpson) integral: the moments of *that* profile
+                own = want_pop if nm == "position" else float(np.sum(profile * ws))
+                if not np.isfinite(own) or not (abs(own) > 1e-6):
+                    rep.ev("degenerate_records_skipped")
+                    continue
+                m, sd = moments(profile, axis, delta, own)
+                if nm == "energy" and renorm_here and abs(own / want_pop - 1) >= 0.05:
+                    rep.ev("degenerate_records_skipped")      # most of the charge has left the grid: diverged run (as for the position profile above)
+                    continue
+                if nm == "energy" and renorm_here and abs(own / want_pop - 1) > 1e-7 and sd is not None:
+                    # known finding (same origin as ...:profile:renormalised_record): at a step that renormalises the charge the stored energy
+                    # profile belongs to the rescaled grid while the energy moments were divided by the charge measured before the rescaling;
+                    # the oracle verifies that exact model (mean*k, width*sqrt(k) with k = charge after / charge before) - anything else is
+                    # reported under the ordinary key
+                    kk = own / want_pop
+                    tm = 2e-5 * max(P["pq"], float(np.sum(np.abs(profile * axis))) * delta / abs(own))
+                    raw_bad = abs(got_m - m) > tm or abs(got_s - sd) > 2e-5 * max(P["pq"], sd)
+                    model_ok = abs(got_m - m * kk) <= tm and abs(got_s - math.sqrt(max(kk * (sd * sd + (m - m * kk) ** 2), 0.0))) <= 2e-5 * max(P["pq"], sd) + 4e-5 * sd
+                    rep.ev("renormalised_energy_moment_records")
+                    if raw_bad and model_ok:
+                        rep.v(pfx + ":energy_moments:renormalised_record", "energy moments divided by the charge measured before the renormalisation of that step",
+                              record=rec, step=step, bunch=b, factor=kk, spread=float(got_s), spread_of_stored_profile=sd)
+                        continue
+                    if model_ok:
+                        continue
                 # single-precision accumulation: error relative to the sum of |terms| (matters only for diverged runs with huge cancellations)
                 a1 = float(np.sum(np.abs(profile * axis))) * delta / abs(want_pop)
                 a2 = float(np.sum(np.abs(profile) * (axis - m) ** 2)) * delta / abs(want_pop)
